@@ -134,19 +134,15 @@ pub(crate) fn eval_macro<'env, 'template>(
             Vec::new(),
         );
     }
+    let rv = Executor::eval_macro(state, instructions_id, pc, out, closure, caller, args);
     #[cfg(feature = "verif_hooks")]
-    {
-        let rv = Executor::eval_macro(state, instructions_id, pc, out, closure, caller, args);
-        if verif_closures_logged {
-            crate::verif_hooks::closures::log(
-                crate::verif_hooks::closures::Op::LeaveMacro,
-                state.ctx.verif_frame_closures(),
-            );
-        }
-        rv
+    if verif_closures_logged {
+        crate::verif_hooks::closures::log(
+            crate::verif_hooks::closures::Op::LeaveMacro,
+            state.ctx.verif_frame_closures(),
+        );
     }
-    #[cfg(not(feature = "verif_hooks"))]
-    Executor::eval_macro(state, instructions_id, pc, out, closure, caller, args)
+    rv
 }
 
 impl<'env> Executor<'env> {
